@@ -21,6 +21,8 @@ import (
 	"math/rand"
 	"net"
 	"net/http"
+	"os"
+	"runtime/pprof"
 	"sort"
 	"strconv"
 	"strings"
@@ -384,7 +386,26 @@ func (r *htRun) logReq(conn int, idx int, q *htReq, userIP string) {
 	r.stat("requests", 1)
 }
 
+var stallDumpOnce sync.Once
+
 func (r *htRun) readResp(conn int, idx int, br *bufio.Reader, q *htReq, t0 time.Time) bool {
+	if f := os.Getenv("VERIF_STALL_DUMP"); f != "" { // diagnosis: dump all goroutines when an answer takes longer than 20 s
+		done := make(chan struct{})
+		defer close(done)
+		go func() {
+			select {
+			case <-done:
+			case <-time.After(20 * time.Second):
+				stallDumpOnce.Do(func() {
+					if fh, err := os.Create(f); err == nil {
+						fmt.Fprintf(fh, "stalled request id=%d proxy=%s method=%s\n", q.id, q.proxy, q.method)
+						_ = pprof.Lookup("goroutine").WriteTo(fh, 2)
+						fh.Close()
+					}
+				})
+			}
+		}()
+	}
 	resp, err := http.ReadResponse(br, &http.Request{Method: q.method})
 	if err != nil {
 		r.sink.Emit("drv", "ht.resp", "conn", conn, "idx", idx, "id", q.id, "ok", false, "err", err.Error(), "status", 0, "resp_id", 0, "headers", [][]string{}, "body_len", 0, "body_sum", "", "ms", time.Since(t0).Milliseconds(), "notfound_page", false)
